@@ -50,9 +50,8 @@ Definition fix_memcache_level : bool := true.
 Definition fix_width_overflow : bool := true.
 (* fix-C07-synthetic-intlv-deeper-level.diff: assert(nb); assert(step) replaced by an error *)
 Definition fix_intlv_deeper : bool := true.
-(* PENDING (patches/fix-C07-synthetic-explicit-dup-indexes.diff, not yet in /repo): explicit index lists with a
-   duplicate are ignored; set to true when committed *)
-Definition fix_dup_indexes : bool := false.
+(* 20f58c3: explicit index lists with a duplicate are ignored; false models the code before that fix *)
+Definition fix_dup_indexes : bool := true.
 Fixpoint dupb (l : list N) : bool := match l with [] => false | x :: r => existsb (N.eqb x) r || dupb r end.
 
 Definition MAXD : N := HWLOC_SYNTHETIC_MAX_DEPTH.
